@@ -61,6 +61,8 @@ Section Push.
   Variable cap : nat.
   Hypothesis OK : slots_ok cap = true.
   Hypothesis SH : shape_ok cap = true.
+  Variable bsz : nat.
+  Hypothesis Hbsz : cap < bsz.
   Notation Inv := (MsPqInv.Inv cap).
 
   Definition W_ok (g : G) (a2 : Aux2) : Prop := forall i t, cellt g i = TOwner t <-> own (a2 t) = Some i.
@@ -527,7 +529,7 @@ Section Push.
   Definition Qjpush (x : item) : bool -> tv * tv2 -> Prop :=
     fun b l' => Qpush x b (fst l') /\ snd l' = mkT2 None false.
 
-  Lemma jsafe_push hf lf t x : jsafe t (push cap hf lf t x) (Vpush x, mkT2 None false) (optQ2 (Qjpush x)).
+  Lemma jsafe_push hf lf t x : jsafe t (push cap bsz hf lf t x) (Vpush x, mkT2 None false) (optQ2 (Qjpush x)).
   Proof.
     assert (HpV : pushing (Vpush x)) by (split; reflexivity).
     unfold push. apply jsafe_lock; [exact HpV|]. intros g a1 a2 tr Hi He V1 V2 Hfree. cbn [lockbit] in Hfree.
@@ -569,7 +571,7 @@ Section Push.
       destruct (brc_inc (ctr g1)) as [s c'] eqn:Einc. cbn [fst snd] in *.
       set (i := slot (S (count g1))) in *. rewrite Hslot.
       assert (Ri : 1 <= i <= cap) by (apply (slot_range cap OK); lia).
-      assert (Hin : Nat.ltb i (bufsize cap) = true) by (apply Nat.ltb_lt; unfold bufsize; lia). rewrite Hin.
+      assert (Hin : Nat.ltb i bsz = true) by (apply Nat.ltb_lt; lia). rewrite Hin.
       cbn [set_pstore P1 hs hand pstore pclear inop pfail] in H2.
       set (P2 := mkTv true (Some x) (Some i) None true false) in *. set (b2 := updv b1 t P2) in *.
       assert (Hvb2 : tvs b2 t = P2) by apply tvs_updv_same.
@@ -612,7 +614,7 @@ Section Push.
   Lemma pop_invoked_one t n args : String.eqb "inv_pop" n = false -> pop_invoked (Conc.tag t [EvCli n args]) = false.
   Proof. intros H. cbn. unfold is_cli. rewrite String.eqb_sym, H. reflexivity. Qed.
 
-  Lemma jsafe_run_op hf lf t o : jsafe t (run_op cap hf lf t o) (idle, idle2) Qjop.
+  Lemma jsafe_run_op hf lf t o : jsafe t (run_op cap bsz hf lf t o) (idle, idle2) Qjop.
   Proof.
     destruct o as [x|]; cbn [run_op Conc.safe].
     - intros g [a1 a2] tr [Hi He] Hv. unfold jview in Hv. cbn [fst snd] in *. inversion Hv as [[V1 V2]].
@@ -657,7 +659,7 @@ Section Push.
       exists (b1, b2). split; [split; [exact H1|apply Ext_dead; exact Hpi]|].
       split; [apply jframe; split; [intros u Hu; apply tvs_updv_other; exact Hu|intros u Hu; apply upd2_other; exact Hu]|].
       unfold jview. cbn [fst snd]. unfold b1, b2. rewrite tvs_updv_same, upd2_same. apply Conc.safe_bind.
-      eapply Conc.safe_weaken; [|apply (lift_vpop _ t _ _ (mkT2 None true) eq_refl (safe_pop cap OK hf lf t))].
+      eapply Conc.safe_weaken; [|apply (lift_vpop _ t _ _ (mkT2 None true) eq_refl (safe_pop cap OK bsz Hbsz hf lf t))].
       intros [[x|]|] [l1 l2] [Hl1 Hl2]; cbn [fst snd] in *; subst l2; cbn [optQ] in Hl1; cbn [Conc.safe].
       + unfold Qpop in Hl1. subst l1. intros g2 [c1 c2] tr2 [Hi2 He2] Hv2. unfold jview in Hv2. cbn [fst snd] in *. inversion Hv2 as [[W1 W2]].
         pose proof (Inv_ret cap g2 c1 tr2 t _ "ret_pop" 1%Z x true W1 eq_refl eq_refl eq_refl eq_refl (or_intror eq_refl) eq_refl) as H2.
@@ -681,14 +683,14 @@ Section Push.
         split; [intros u Hu; reflexivity|]. intros E. discriminate.
   Qed.
 
-  Lemma jsafe_run_ops hf lf t os : jsafe t (run_ops cap hf lf t os) (idle, idle2) (@Conc.QTrue (tv * tv2)).
+  Lemma jsafe_run_ops hf lf t os : jsafe t (run_ops cap bsz hf lf t os) (idle, idle2) (@Conc.QTrue (tv * tv2)).
   Proof.
     induction os as [|o r IH]; cbn [run_ops]; [exact I|].
     apply Conc.safe_bind. eapply Conc.safe_weaken; [|apply jsafe_run_op].
     intros [|] l' Hl'; [rewrite (Hl' eq_refl); exact IH|exact I].
   Qed.
 
-  Lemma jsafe_thread hf lf t os : jsafe t (thread_prog cap hf lf t os) (idle, idle2) (@Conc.QTrue (tv * tv2)).
+  Lemma jsafe_thread hf lf t os : jsafe t (thread_prog cap bsz hf lf t os) (idle, idle2) (@Conc.QTrue (tv * tv2)).
   Proof.
     unfold thread_prog. cbn [Conc.safe]. intros g [a1 a2] tr [Hi He] Hv. cbn [a_begin fst snd]. exists (a1, a2).
     split; [split; [apply Inv_irrelevant; [reflexivity|exact Hi]|]|].
@@ -698,7 +700,7 @@ Section Push.
     - split; [intros u Hu; reflexivity|]. rewrite Hv. apply jsafe_run_ops.
   Qed.
 
-  Lemma jinit_ok hf lf ths : Conc.cfg_ok jview JInv (init_cfg cap hf lf ths).
+  Lemma jinit_ok hf lf ths : Conc.cfg_ok jview JInv (init_cfg cap bsz hf lf ths).
   Proof.
     exists (mkA (fun _ => idle) [], fun _ => idle2). split.
     - split; [apply Inv_init|]. cbn [fst snd]. split; [intros t H; discriminate|]. intros _. split; [|split; [|split]].
@@ -706,7 +708,7 @@ Section Push.
       + intros k j x y _ _ Hx. discriminate.
       + intros t. reflexivity.
       + intros t [H|[H|H]]; cbn in H; congruence.
-    - intros t p Hp. cbn [init_cfg Conc.threads] in Hp. destruct (nth_thread_progs cap hf lf ths 0 t p Hp) as [os ->].
+    - intros t p Hp. cbn [init_cfg Conc.threads] in Hp. destruct (nth_thread_progs cap bsz Hbsz hf lf ths 0 t p Hp) as [os ->].
       cbn [Nat.add]. apply jsafe_thread.
   Qed.
 
@@ -714,7 +716,7 @@ Section Push.
          max-heap ([Good]: the cells in use are the first [count] slots, all tagged Available, every cell in use
          is not larger than its parent) holding exactly the items of the successful pushes *)
   Theorem mspq_push_phase_heap hf lf ths c :
-    Conc.reach (init_cfg cap hf lf ths) c ->
+    Conc.reach (init_cfg cap bsz hf lf ths) c ->
     pop_invoked (Conc.trace c) = false -> (forall t, pend (Conc.trace c) t = false) ->
     Good (count (Conc.shared c)) (cellv (Conc.shared c)) (cellt (Conc.shared c)) /\
     Permutation (heap_items cap (Conc.shared c) ++ given_back (Conc.trace c)) (invoked (Conc.trace c)).
@@ -747,6 +749,6 @@ Section Push.
         destruct (cellt g k) as [| |u] eqn:Et; [|reflexivity|].
         * exfalso. assert (cellv g k = None) by (apply (iT _ _ _ _ Hi); exact Et). congruence.
         * exfalso. apply HW in Et. destruct (Hnone u) as (_ & _ & Ho). congruence.
-    - apply (mspq_conservation_quiescent cap OK hf lf ths c Hr Hq).
+    - apply (mspq_conservation_quiescent cap OK bsz Hbsz hf lf ths c Hr Hq).
   Qed.
 End Push.
